@@ -202,6 +202,7 @@ func (m *Machine) setupIntrinsics() {
 		}
 		return nil
 	})
+	reg("vSingleReplay", func(m *Machine, a []Val) Val { return Bool{C: false} })
 	reg("vReach", func(m *Machine, a []Val) Val {
 		m.reached[strArg(a[0])] = true
 		return nil
